@@ -218,6 +218,7 @@ func CheckC06(e *Env) (int, error) {
 	var viols []*Violation
 	var trouble error
 	distinct, coldCases, coldProcs, maxSeededDistinct := 0, 0, 0, map[int]int{}
+	seamUnavailable := 0
 	var samples []interface{}
 	e.Logf("C06: %d jobs", len(jobs))
 	e.Parallel(len(jobs), func(i int) {
@@ -230,6 +231,10 @@ func CheckC06(e *Env) (int, error) {
 		p, err := e.RunJSON(bin, "c06", j, &r, 20*time.Minute)
 		mu.Lock()
 		defer mu.Unlock()
+		if err == nil && j.cold && p.Exit == 4 {
+			seamUnavailable++ // the tree's default source is not crypto/rand.Reader (C07's business): hook-free runs impossible
+			return
+		}
 		if err == nil && (p.Exit != 0 || p.TimedOut) {
 			err = Troublef("C06 worker (%s) exit %d timeout=%v: %s", j.Kind, p.Exit, p.TimedOut, tail(p.Stderr, 8))
 		}
@@ -299,6 +304,7 @@ func CheckC06(e *Env) (int, error) {
 		"worker_processes":    len(jobs),
 		"cold_start_processes": coldProcs,
 		"cold_start_cases":    coldCases,
+		"cold_start_seam_unavailable": seamUnavailable,
 		"sim_steps_total":     tot.Reads,
 		"sim_time_note":       "the system has no clock; simulated time is counted in device reads",
 		"faults_fired":        tot.Fired,
